@@ -55,6 +55,10 @@ LAZY = re.compile(r"(Iterator::|Iterator>::)(map|inspect|by_ref|copied|cloned|en
 # plumbing that hands a value on unchanged (besides references): `?`, clone, deref/borrow of an owning wrapper
 FAITHFUL = re.compile(r"as std::ops::Try>::branch$|as std::clone::Clone>::clone$|as std::ops::Deref>::deref$|as std::borrow::Borrow<.*>>::borrow$|as std::convert::AsRef<.*>>::as_ref$|^std::borrow::Cow::<.*>::(into_owned|to_mut)$|as std::borrow::ToOwned>::to_owned$")
 READ_ONLY = re.compile(r"::(len|is_empty|capacity|iter|as_slice|first|last|get|contains|as_ptr|reserve|reserve_exact|shrink_to_fit)$|as std::ops::Deref>::deref$|as std::clone::Clone>::clone$|as std::convert::AsRef<.*>>::as_ref$|as std::borrow::Borrow<.*>>::borrow$|IntoIterator>::into_iter$")
+# serde_json's kind accessors: Some exactly for a value of that kind (as_f64 / as_i64 / as_u64 are not: they depend on the number)
+FIRST_ELEMENT_TEST = re.compile(r"^[\w:{}#<>, ]*::(is_none|is_some)\((?:\(ref )?[\w:{}#<>, ]*::(?:first|last)\(")
+KIND_ACCESSOR = {"serde_json::Value::as_null": "Null", "serde_json::Value::as_bool": "Bool", "serde_json::Value::as_number": "Number",
+                 "serde_json::Value::as_str": "String", "serde_json::Value::as_array": "Array", "serde_json::Value::as_object": "Object"}
 EMPTY_CTOR = re.compile(r"Vec::<T>::(new|with_capacity)$|^std::iter::empty$|Default>::default$")
 
 
@@ -246,6 +250,16 @@ def peel(roles, e):
             if c.get("key") == ck or ck in fwd or FAITHFUL.search(c.get("path", "")):
                 e = e[2][0]
                 continue
+            if optnorm.M.match(c.get("path", "")) and FACTS[0] is not None:
+                # an Option/Result combinator over a constructor the path knows (`holder.as_ref().unwrap_or(operand)`
+                # with holder = None / Some(evaluated)): the one value it hands on
+                try:
+                    sub = optnorm.cases_expr(FACTS[0], e)
+                except Exception:
+                    sub = None
+                if sub and len(sub) == 1 and not sub[0][0] and isinstance(sub[0][1], tuple) and strip_refs(sub[0][1]) != e and sub[0][1][0] not in ("panic", "default", "error"):
+                    e = sub[0][1]
+                    continue
         return e
     return e
 
@@ -338,8 +352,9 @@ def matrix(ctx, roles, u, coll_sites, adaptor_bi, pred_sites=(), name="", cfg=""
             for k in facts.reach(roots):
                 ext |= extm.get(k, set())
         bad = sorted(q for q in ext if BAD_SPLIT.search(q))
-        from_array = expr_mentions(recv, lambda x: x[0] == "downcast" and x[2] == "Array")
-        from_string = expr_mentions(recv, lambda x: x[0] == "downcast" and x[2] == "String")
+        acc = lambda kind: (lambda x: x[0] == "call" and x[1] and KIND_ACCESSOR.get(x[1].get("path")) == kind)
+        from_array = expr_mentions(recv, lambda x: x[0] == "downcast" and x[2] == "Array") or expr_mentions(recv, acc("Array"))
+        from_string = expr_mentions(recv, lambda x: x[0] == "downcast" and x[2] == "String") or expr_mentions(recv, acc("String"))
         if from_array and not from_string:
             return "ITER(elements)"
         if from_string and not from_array:
@@ -357,6 +372,20 @@ def matrix(ctx, roles, u, coll_sites, adaptor_bi, pred_sites=(), name="", cfg=""
 
         def known(e, adt, _o=o, _eff=eff, record=True):
             if adt != VALUE:
+                # `v.as_str()` is Some exactly for a string (serde_json's kind accessors): on a value whose kind the case
+                # fixes, the question is decided — as the `match` spelling of it is; also through combinators that keep
+                # the variant (`v.as_str().map(..)`)
+                inner, ren = pathsum.through_variant_preserving(e)
+                base = strip_refs(inner if inner is not None else e)
+                if base[0] == "call" and base[1] and base[1].get("path") in KIND_ACCESSOR and base[2]:
+                    k = known(base[2][0], VALUE, record=False)
+                    if k is None:
+                        return None
+                    var = "Some" if k == KIND_ACCESSOR[base[1]["path"]] else "None"
+                    if ren:
+                        back = [o_ for o_, i_ in ren.items() if i_ == var]
+                        return back[0] if len(back) == 1 else None
+                    return var
                 return None
             x = peel(roles, e)
             if is_operand0(x):
@@ -566,6 +595,13 @@ def emptiness(p):
             return bool(val)
         if key[0] == "int" and "::len(" in key[1]:
             return val == 0
+        # "has it a first element?": `items.first().is_none()`, `match items.first() { None => … }`
+        if key[0] == "pure" and isinstance(val, bool):
+            m = FIRST_ELEMENT_TEST.match(key[1])
+            if m:
+                return val if m.group(1) == "is_none" else (not val)
+        if key[0] == "variant" and re.match(r"^[\w:{}#<>, ]*::(first|last)\(", key[1]) and val in ("None", "Some"):
+            return val == "None"
     return None
 
 
